@@ -139,6 +139,28 @@ MUTS = [
     ('forward path not cleared in StrokeCtx::finish', 'kurbo/src/stroke.rs',
      'true, self.start_pt, self.start_norm),\n        }\n\n        self.forward_path.truncate(0);', 'true, self.start_pt, self.start_norm),\n        }\n',
      {'stroke.rs::StrokeCtx::finish'}),
+    # ---- phase 3: state machines tied by simulation
+    ('ClosePath arm of Segments::next does not reset `last`', 'kurbo/src/bezpath.rs',
+     'PathSeg::Line(Line::new(mem::replace(last, *start), *start))', 'PathSeg::Line(Line::new(*last, *start))',
+     {'bezpath.rs::<Segments<I> as Iterator>::next'}),
+    ('MoveTo arm of Segments::next forgets `start`', 'kurbo/src/bezpath.rs',
+     '                    *start = p;\n                    *last = p;\n                    continue;', '                    *last = p;\n                    continue;',
+     {'bezpath.rs::<Segments<I> as Iterator>::next'}),
+    ('get_seg: search range off by one', 'kurbo/src/bezpath.rs',
+     'self.0[..ix].iter().rev().find_map(', 'self.0[..ix - 1].iter().rev().find_map(',
+     {'bezpath.rs::BezPath::get_seg'}),
+    ('reverse_subpath skips the MoveTo', 'kurbo/src/bezpath.rs',
+     '    reversed.push(PathEl::MoveTo(end_pt));\n    for (ix, el) in els.iter().enumerate().rev() {', '    let _ = end_pt;\n    for (ix, el) in els.iter().enumerate().rev() {',
+     {'bezpath.rs::reverse_subpath'}),
+    ('reverse_subpaths: <= -> < before a ClosePath', 'kurbo/src/bezpath.rs',
+     'if start_ix <= ix {', 'if start_ix < ix {',
+     {'bezpath.rs::BezPath::reverse_subpaths'}),
+    ('from_path_segments tracks the start instead of the end', 'kurbo/src/svg.rs',
+     'current_pos = Some(segment.end());', 'current_pos = Some(segment.start());',
+     {'svg.rs::BezPath::from_path_segments'}),
+    ('DashIterator::next keeps closepath_pending set', 'kurbo/src/stroke.rs',
+     '                            self.closepath_pending = false;\n                            self.state = DashState::NeedInput;', '                            self.state = DashState::NeedInput;',
+     {"stroke.rs::<DashIterator<'_,T> as Iterator>::next"}),
     # a helper without a model counterpart: every user follows
     ('helper Rect::new swaps y0/y1 (all users of the helper follow)', 'kurbo/src/rect.rs',
      'Rect { x0, y0, x1, y1 }\n    }', 'Rect { x0, y0: y1, x1, y1: y0 }\n    }',
